@@ -9,6 +9,7 @@ import GMGDriver.GridGenDrv
 import GMGDriver.SchedDrv
 import GMGDriver.ParDrv
 import GMGDriver.OptionsDrv
+import GMGDriver.InputFnDrv
 
 def main (args : List String) : IO UInt32 := do
   match args with
@@ -26,6 +27,7 @@ def main (args : List String) : IO UInt32 := do
   | ["gridgen"] => GridGenDrv.main
   | ["par"] => ParDrv.main
   | ["options"] => OptionsDrv.main
+  | ["inputfn"] => InputFnDrv.main
   | ["sched", a, b] => SchedDrv.main a.toNat! b.toNat!
   | _ => do
     IO.eprintln "usage: gmgdriver <grid|tridiag|lu|...>  (reads the harness line protocol on stdin)"
